@@ -536,6 +536,11 @@ func (ip *Interp) indexAddr(fr *frame, instr *ssa.IndexAddr) Value {
 			return Ptr{Cell: &x.Base[x.Off+i], Base: x.Base, Idx: x.Off + i}
 		}
 		ip.boundsCheck(idx, x.Len, instr)
+		if !idx.IsConst() && x.Len > 1 {
+			if sp, ok := ip.symElemPtr(idx, x.Base, x.Off, x.Len); ok {
+				return sp
+			}
+		}
 		i := ip.concInt(idx, "slice index")
 		return Ptr{Cell: &x.Base[x.Off+i], Base: x.Base, Idx: x.Off + i}
 	case Ptr:
@@ -544,6 +549,11 @@ func (ip *Interp) indexAddr(fr *frame, instr *ssa.IndexAddr) Value {
 		}
 		a := (*x.Cell).(Array)
 		ip.boundsCheck(idx, len(a), instr)
+		if !idx.IsConst() && len(a) > 1 {
+			if sp, ok := ip.symElemPtr(idx, a, 0, len(a)); ok {
+				return sp
+			}
+		}
 		i := ip.concInt(idx, "array index")
 		return Ptr{Cell: &a[i], Base: a, Idx: i}
 	}
@@ -555,11 +565,13 @@ func (ip *Interp) indexAddr(fr *frame, instr *ssa.IndexAddr) Value {
 func (ip *Interp) selectByIndex(idx *Term, n int, elem func(i int) *Term) *Term {
 	st := ip.st
 	res := elem(n - 1)
+	last := res
 	for i := n - 2; i >= 0; i-- {
 		e := elem(i)
-		if e == res {
+		if e == last {
 			continue
 		}
+		last = e
 		// all indices <= i that map to e up to the previous change point: use idx <= i
 		res = st.Ite(st.Cmp(OpULe, idx, st.Const(idx.W, uint64(i))), e, res)
 	}
@@ -852,7 +864,15 @@ func (ip *Interp) iterNext(it *Iter, site ssa.Instruction) Value {
 				it.spos++
 				return Tuple{st.T, st.Const(64, uint64(pos)), st.ZExt(b0, 32)}
 			}
-			ip.oom("range over string with symbolic non-ASCII byte")
+			// general case: run the real utf8.DecodeRuneInString symbolically
+			up := ip.prog.ImportedPackage("unicode/utf8")
+			if up == nil {
+				ip.oom("range over string with symbolic non-ASCII byte (unicode/utf8 not loaded)")
+			}
+			res := ip.callSSA(nil, up.Func("DecodeRuneInString"), []Value{Str{B: s[pos:]}}, nil).(Tuple)
+			size := ip.concInt(res[1].(*Term), "rune size")
+			it.spos += size
+			return Tuple{st.T, st.Const(64, uint64(pos)), res[0].(*Term)}
 		}
 		// decode with concrete prefix as far as needed
 		var buf []byte
@@ -931,4 +951,20 @@ func (ip *Interp) concStrV(v Value) Value {
 		return ip.concStr(s)
 	}
 	return v
+}
+
+var dummyCell Value
+
+// symElemPtr builds a symbolic-index element pointer if all n elements are scalars.
+func (ip *Interp) symElemPtr(idx *Term, base []Value, off, n int) (Ptr, bool) {
+	idx = ip.simp(idx)
+	if idx.IsConst() {
+		return Ptr{}, false
+	}
+	for i := 0; i < n; i++ {
+		if _, ok := base[off+i].(*Term); !ok {
+			return Ptr{}, false
+		}
+	}
+	return Ptr{Cell: &dummyCell, Base: base, Idx: off, SymIdx: idx, N: n}, true
 }
